@@ -4,7 +4,7 @@ that already have a history -- caches filled, phosphosites set, defaults used)."
 from . import common
 
 WARM = ["get_kappa", "get_deltaMax", "get_deltaMaxPerm", "get_delta", "get_Omega", "get_SCD", "get_FCR", "get_NCPR",
-        "get_kappa_X", "get_linear_NCPR", "get_linear_sigma", "get_linear_hydropathy", "get_linear_composition",
+        "get_kappa_X", "get_linear_NCPR", "get_linear_FCR", "get_linear_sigma", "get_linear_hydropathy", "get_linear_composition",
         "set_phosphosites", "get_kappa_after_phosphorylation", "get_phosphosequence", "get_phospho_distribution",
         "clear_phosphosites", "get_HTMLColorString", "get_isoelectric_point", "get_linear_complexity",
         "get_reduced_alphabet_sequence", "get_shuffled_sequence", "get_FCR_pH", "get_mean_hydropathy",
@@ -39,7 +39,7 @@ def warmup(o, rng, n=None, phos=True):
     for _ in range(k):
         name = rng.choice(WARM)
         c = {"call": name}
-        if name in ("get_linear_NCPR", "get_linear_sigma", "get_linear_hydropathy", "get_linear_composition"):
+        if name in ("get_linear_NCPR", "get_linear_FCR", "get_linear_sigma", "get_linear_hydropathy", "get_linear_composition"):
             c["w"] = rng.randint(1, N)
         elif name == "set_phosphosites":
             if not phos:
@@ -65,6 +65,8 @@ def warmup(o, rng, n=None, phos=True):
 
 def apply_call(o, c):
     """Apply one call descriptor; returns common.call's outcome."""
+    if "made" in c:
+        return ("ok", None)
     n = c["call"]
     if n == "get_deltaMaxPerm":
         return common.call(o.get_deltaMax, True)
@@ -91,3 +93,27 @@ def apply_call(o, c):
     if n == "str":
         return common.call(str, o)
     return common.call(getattr(o, n))
+
+
+WS_CHARS = [" ", "\n", "\t", "\r\n", "  "]
+
+
+def make_object(lc, seq, rng, allow_shuffle=True):
+    """An object for a check to query: built directly from `seq`, from a decorated spelling of it (lower case, whitespace:
+    normalisation is part of the API), or as the child returned by get_shuffled_sequence(frozen) of such an object (its
+    sequence is then a rearrangement of `seq`).  Returns (object, its sequence, how)."""
+    r = rng.random()
+    if r < 0.55:
+        return lc.SP(seq), seq, "direct"
+    if r < 0.8 or not allow_shuffle or len(seq) < 2:
+        text = "".join((rng.choice(WS_CHARS) if rng.random() < 0.1 else "") + (c.lower() if rng.random() < 0.4 else c) for c in seq) + rng.choice(["", "\n", " "])
+        return lc.SP(text), seq, "decorated string"
+    parent = lc.SP(seq)
+    if rng.random() < 0.5:
+        common.call(parent.get_kappa)
+    frozen = set(rng.sample(range(len(seq)), rng.randint(0, max(0, len(seq) // 3))))
+    out = common.call(parent.get_shuffled_sequence, frozen)
+    if out[0] != "ok":
+        return lc.SP(seq), seq, "direct"
+    child = out[1]
+    return child, child.get_sequence(), "shuffled child (frozen %d)" % len(frozen)
